@@ -237,3 +237,41 @@ func fn45() (r any) {
 	}()
 	return 1
 }
+
+var y int
+
+// The address of a package-level variable and a function value are never nil,
+// no matter how many phis they feed.
+func fn46(b1, b2 bool) *int {
+	p := &y
+	if b1 {
+		p = nil
+	}
+	_ = p
+	var q *int
+	if b2 {
+		q = &y
+	}
+	return q
+}
+
+func fn47(b1, b2 bool) func() *int {
+	p := fn13
+	if b1 {
+		p = nil
+	}
+	_ = p
+	var q func() *int
+	if b2 {
+		q = fn13
+	}
+	return q
+}
+
+func fn48(b bool) (*int, *int) { // want fn48:`nilness: \[\{[^ ]+ NeverNil\} \{[^ ]+ MaybeNil\}\]`
+	p, q := &y, &y
+	if b {
+		p, q = new(int), nil
+	}
+	return p, q
+}
